@@ -34,5 +34,5 @@ def field(k):
     return ' '.join(r.group(1).split()) if r else None
 name = re.sub(r'[^a-z0-9\-]', '', (field('Name') or mut).lower())[:70]
 files = sorted(set(re.findall(r'^\+\+\+ b/(\S+)', open(os.path.join(m, 'patch.diff')).read(), re.M)))
-json.dump({'summary': SUMMARIES.get((pid, mut)) or field('Expected'), 'needs': field('Needs'), 'files': files}, open(os.path.join(m, 'meta.json'), 'w'), indent=1)
+json.dump({'summary': (SUMMARIES.get((pid, mut)) if os.environ.get('ROUND', 'r7') in ('r7', 'r8') else None) or field('Summary') or field('Expected'), 'needs': field('Needs'), 'files': files}, open(os.path.join(m, 'meta.json'), 'w'), indent=1)
 subprocess.run(['python3', '/verif/tools/keep_seed.py', pid, m, f'{pid}-{os.environ.get("ROUND", "r7")}-{name}', detected], check=True)
